@@ -89,7 +89,8 @@ def case_split(pieces, facts, max_conds=3):
                 if st[0] == "cond" and st[1] not in conds:
                     conds.append(st[1])
     loopvars = {l["var"] for p in pieces for l in p["loops"] if "var" in l}
-    varying = [c for c in conds if any(a in loopvars or a[0] in ("var", "unk") for a in sym.atoms(c))]
+    varying = [c for c in conds if any(a in loopvars or a[0] in ("var", "unk") for a in sym.atoms(c)) or
+               any(st[0] == "unk" or st in loopvars for st in sym.subterms(c))]
     if len(conds) > max_conds or varying:
         # a condition on a loop variable or on a value that changes from one iteration to the next is not a case of the call
         yield None, facts, pieces
